@@ -23,7 +23,7 @@ from ..gvn import Frame, Obj, PW, Vec, cases_of, veq, mk_pw, Unsupported
 from ..intervals import single_atom
 from . import detectors as d
 from . import rdp_model as rm
-from .common import RuleCtx, _short, sign_set_name
+from .common import RuleCtx, _short, sign_set_name, returned_names
 
 C = Rat.const
 DETECTORS = ["curvature", "dfdt", "menger", "lmethod", "kneedle"]
@@ -71,7 +71,7 @@ def _driver(rc: RuleCtx):
         t2, t1 = sym("t2"), sym("t1")
         gate = canon_sign(L - t2, OPS[">"])
         pushes = m.pushes
-        apps = m.appends("knees")
+        apps = m.appends(m.retained) if m.retained else []
         calls = [e for e in m.events if e.kind == "call" and e.target == "get_knee"]
         step_events = [e for e in m.events if (e.kind == "append") or (e.kind == "call" and e.target == "get_knee")]
         if len(pushes) != 2 or len(apps) != 1 or len(calls) != 1:
@@ -148,13 +148,14 @@ def _driver(rc: RuleCtx):
             fr = Frame(ev, m.fi, 0)
             env = dict(m.env_pre)
             fr.block(m.post, env, TRUE)
-            sorts = [e for e in fr.events if e.kind == "sort" and e.target == "knees" and e.guard.kind == "true" and not e.node.keywords]
-            if sorts and len(fr.returns) == 1:
+            sorts = [e for e in fr.events if e.kind == "sort" and e.target == m.retained and e.guard.kind == "true" and not e.node.keywords]
+            rn = returned_names(m.post)
+            if sorts and len(fr.returns) == 1 and rn is not None and m.retained in rn:
                 res.ok("M5", "multi_knee.multi_knee", "knees.sort() before np.array(knees) is returned")
             else:
                 res.violation("M5", m.fi.module, m.fi.name, m.fi.node, "the knees are not sorted ascending before being returned", str([ast.unparse(s) for s in m.post]),
                               "knees.sort(); return np.array(knees)", construct="sort before return")
-            seed = m.env_pre.get("stack")
+            seed = m.env_pre.get(m.stack)
             if isinstance(seed, Vec) and len(seed.items) == 1 and isinstance(seed.items[0], Vec) and seed.items[0].items[0].is_zero() \
                     and seed.items[0].items[1].equals(sym("n")):
                 res.ok("M3", "multi_knee.multi_knee:seed", "work stack seeded with the whole curve (0, n)")
